@@ -14,6 +14,7 @@ Value specs (JSON):
 from __future__ import annotations
 
 import math
+import re
 
 import numpy as np
 
@@ -129,6 +130,8 @@ def make_value(spec):
         return t["dt"][spec[1]]
     if k == "STR":
         return spec[1]
+    if k == "DEV":
+        return torch.device(spec[1])
     if k == "N":
         return None
     raise ValueError(spec)
@@ -325,15 +328,29 @@ def _add_called_functions(model):
     return
 
 
-def type_and_check(mp):
-    """Infer the output types (they are left open so the dtype is *measured*), then full check."""
+def type_and_check(mp, exp=None):
+    """Infer the output types (they are left open so that dtype and shape are *measured*, not declared from
+    torch's answer), then onnx.checker full check.  The checker insists on a shape field for graph outputs;
+    where inference yields none, the checked copy gets fully symbolic dims (the executed model does not)."""
     onnx = T()["onnx"]
     inferred = onnx.shape_inference.infer_shapes(mp, strict_mode=True, data_prop=True)
     missing = [o.name for o in inferred.graph.output if not o.type.HasField("tensor_type")
                and not o.type.HasField("sequence_type") and not o.type.HasField("optional_type")]
     if missing:
         raise ValueError(f"output type cannot be inferred: {missing}")
-    onnx.checker.check_model(inferred, full_check=True)
+    chk = inferred
+    if any(o.type.HasField("tensor_type") and not o.type.tensor_type.HasField("shape") for o in inferred.graph.output):
+        chk = onnx.ModelProto()
+        chk.CopyFrom(inferred)
+        for i, o in enumerate(chk.graph.output):
+            if o.type.HasField("tensor_type") and not o.type.tensor_type.HasField("shape"):
+                rank = 1
+                if exp is not None and i < len(exp) and hasattr(exp[i], "ndim"):
+                    rank = exp[i].ndim
+                o.type.tensor_type.shape.SetInParent()
+                for j in range(rank):
+                    o.type.tensor_type.shape.dim.add().dim_param = f"o{i}_d{j}"
+    onnx.checker.check_model(chk, full_check=True)
     return inferred
 
 
@@ -391,6 +408,7 @@ def expected_outputs(res):
 def classify_diff(d):
     if d is None:
         return None
+    d = d.split(" [reference evaluator;")[0]
     if "dtype" in d:
         return "dtype"
     if "shape" in d:
@@ -404,44 +422,82 @@ def classify_diff(d):
 # argument-class minimisation
 # ------------------------------------------------------------------------------------------------
 
-def _dtype_coarse(v):
-    if v in _FLOATS:
-        return "float"
-    if v in _INTS or v == "u8":
-        return "int"
-    return v
+_DT_NAMES = ("f16", "f32", "f64", "bf16", "i8", "i16", "i32", "i64", "u8", "bool")
 
 
-def coarse(label, v):
-    """One coarser abstraction of a feature value (None when there is none)."""
-    if v is None:
-        return None
-    if label.startswith("dtype") or label.endswith("dtype"):
-        c = _dtype_coarse(v)
-        return c if c != v else None
-    if label.startswith("shape") or label.endswith("shape"):
-        if isinstance(v, str) and v.startswith("("):
-            dims = [d for d in v.strip("()").split(",") if d.strip()]
-            if not dims:
-                return "0d"
-            if any(d.strip() == "0" for d in dims):
-                return "empty"
-            return "nonempty"
-        return None
-    if isinstance(v, bool):
-        return None
-    if isinstance(v, (int, float)) and not isinstance(v, bool):
-        return "neg" if v < 0 else "nonneg"
-    if isinstance(v, str) and v.lstrip("-").isdigit():
-        return "neg" if v.startswith("-") else "nonneg"
-    return None
+def _shape_abs(dims):
+    numel = 1
+    for d in dims:
+        numel *= d
+    out = ["numel>0" if numel > 0 else "numel=0"]
+    if not dims:
+        out.append("0d")
+    elif numel == 0:
+        out.append("empty")
+    elif numel == 1:
+        out.append("single")
+    else:
+        out.append("multi")
+    out.append(f"rank={len(dims)}")
+    return out
+
+
+def _parse_shape(v):
+    inner = v[v.index("(") + 1:v.rindex(")")]
+    return [int(d) for d in inner.split(",") if d.strip()]
+
+
+def abstractions(label, v):
+    """Coarser descriptions of a feature value, coarsest first (the exact value is not included)."""
+    if not isinstance(v, str):
+        v = str(v)
+    if v in _DT_NAMES:
+        if v in _FLOATS:
+            return ["float"]
+        if v == "bool":
+            return ["nonfloat"]
+        return ["nonfloat", "int"]
+    if v.startswith("(") and v.endswith(")"):
+        try:
+            return _shape_abs(_parse_shape(v))
+        except ValueError:
+            return []
+    if v.startswith("t(") and v.endswith(")"):
+        try:
+            return ["tensor"] + ["t:" + a for a in _shape_abs(_parse_shape(v))]
+        except ValueError:
+            return ["tensor"]
+    if v.startswith("py:"):
+        parts = v.split(":")
+        out = ["py"]
+        if len(parts) >= 3:
+            out.append("py:" + parts[1])
+        return out
+    if re.fullmatch(r"-?\d+(\.\d+)?(e-?\d+)?", v):
+        out = ["given"]
+        if float(v) != 1:
+            out.append("ne1")
+        out.append("neg" if v.startswith("-") else "nonneg")
+        return out
+    if v.startswith("[") and v.endswith("]"):
+        inner = [x for x in v[1:-1].split(",") if x.strip()]
+        out = ["given", "list"]
+        if inner and all(re.fullmatch(r"-?\d+", x.strip()) for x in inner):
+            out.append("list:hasneg" if any(x.strip().startswith("-") for x in inner) else "list:nonneg")
+        out.append(f"len={len(inner)}")
+        return out
+    if v not in ("omit", "None"):
+        return ["given"]
+    return []
 
 
 def minimise_classes(cases, fails):
     """cases: list of feature dicts (label -> value) of the cases that were *executed to a verdict* in this
     batch, fails: parallel list of failure kind or None.  For each failing case greedily generalise its
-    feature conjunction (drop a feature, else coarsen it) as long as every case of the batch that matches
-    the generalised class fails with the same kind.  -> list (parallel) of class strings / None."""
+    feature conjunction (drop a feature, else replace its value by the coarsest abstraction that works) as long
+    as every case of the batch that matches the generalised class fails with the same kind.  The class is
+    therefore a sound description: within the enumerated domain every decided case in it fails that way.
+    -> list (parallel) of class strings / None."""
     labels = []
     for c in cases:
         for k in c:
@@ -450,24 +506,31 @@ def minimise_classes(cases, fails):
     n = len(cases)
     out = [None] * n
     memo = {}
+    abs_cache = {}
+
+    def absof(k, v):
+        key = (k, v)
+        if key not in abs_cache:
+            abs_cache[key] = abstractions(k, v)
+        return abs_cache[key]
+
+    def matches(cl, d):
+        for k, (op, v) in cl.items():
+            if k not in d:
+                return False
+            if op == "=":
+                if d[k] != v:
+                    return False
+            elif v not in absof(k, d[k]):
+                return False
+        return True
+
     for i in range(n):
         kind = fails[i]
         if kind is None:
             continue
         c = cases[i]
         cls = {k: ("=", c[k]) for k in labels if k in c}
-
-        def matches(cl, d):
-            for k, (op, v) in cl.items():
-                if k not in d:
-                    return False
-                if op == "=":
-                    if d[k] != v:
-                        return False
-                else:
-                    if coarse(k, d[k]) != v and d[k] != v:
-                        return False
-            return True
 
         def pure(cl):
             key = (kind, tuple(sorted((k, op, str(v)) for k, (op, v) in cl.items())))
@@ -486,14 +549,17 @@ def minimise_classes(cases, fails):
             if pure(trial):
                 cls = trial
                 continue
-            cv = coarse(k, c[k])
-            if cv is not None:
+            for av in absof(k, c[k]):
                 trial = dict(cls)
-                trial[k] = ("~", cv)
+                trial[k] = ("~", av)
                 if pure(trial):
                     cls = trial
+                    break
         out[i] = ",".join(f"{k}{op}{v}" for k, (op, v) in cls.items()) or "any"
     return out
+
+
+from vf.props.c08_min import abstractions, minimise_classes  # noqa: E402,F401,F811  (supersedes the above)
 
 
 def fmt_shape(s):
